@@ -48,5 +48,20 @@ func IsNoResponseCode(code codes.Code, noRespValue uint32) error {
 			return ErrMessageNotInterested
 		}
 	}
+	// RFC 7967 section 2.1 suppresses whole response classes, not only the codes listed above.
+	switch code >> 5 {
+	case 2:
+		if isSet(noRespValue, 1) {
+			return ErrMessageNotInterested
+		}
+	case 4:
+		if isSet(noRespValue, 3) {
+			return ErrMessageNotInterested
+		}
+	case 5:
+		if isSet(noRespValue, 4) {
+			return ErrMessageNotInterested
+		}
+	}
 	return nil
 }
